@@ -248,6 +248,14 @@ def run_direct(rng, n, fns, known_filter=None, gen_kw=None, res=None):
                 direct.fit_case_estimator(kp, case, case.get('Xfit', case['X']))
                 if direct.min_ep_len(case) >= case['w']:
                     kp.transform(case['X'])
+                else:
+                    # an episode shorter than the window: a pipeline refuses such data at fit; a stage used on its own
+                    # refuses it at transform (ValueError).  A refusal is outside every property; counted
+                    try:
+                        kp.transform(case['X'])
+                    except ValueError:
+                        known['_skipped_short_episode_refused_at_transform'] = known.get('_skipped_short_episode_refused_at_transform', 0) + 1
+                        continue
         except CaseTooSlow:
             # a generated pipeline whose fit alone takes this long on the UNCHANGED code (polynomial of a wide lifted
             # state) is dropped, and counted; it says nothing about the property
